@@ -1,2 +1,9 @@
-From Clikit Require Import Base.Prelude.
-Theorem placeholder : True. Proof. exact I. Qed.
+(* C13 - help pages (work in progress) *)
+From Clikit Require Import Base.Prelude Base.Res Model.Wrap Proofs.WrapLemmas.
+
+Theorem wrap_total : forall text w, (1 <= w)%Z -> exists ls, wrap text w = Ok ls.
+Proof. exact wrap_total_lemma. Qed.
+Print Assumptions wrap_total.
+Theorem wrap_lines_fit : forall text w ls, wrap text w = Ok ls -> Forall (fun l => (Z.of_nat (length l) <= w)%Z) ls.
+Proof. exact wrap_lines_fit_lemma. Qed.
+Print Assumptions wrap_lines_fit.
